@@ -9,12 +9,14 @@ LEAN_MODULES = ["NiftyVerif.Props.C27"]
 DRIVER = "Driver/C27.lean"
 OBLIGATIONS = ["NiftyVerif.C27." + t for t in (
     "loop_balanced", "loop_iterations", "precheckB_iff_validB", "valid_accepted", "invalid_rejected_kind",
+    "keyOf_le", "seeds_equal_iff", "shared_object_not_frozen", "seedsRepeatFrom_spec",
     "rejected_only_invalid", "rng_stack_balanced", "asFound_dry_run_unbalanced", "asFound_terminate_unbalanced",
     "asFound_sanity_false_unbound", "asFound_stale_output_directory")]
-RULE = ("case = one value per option group (17 groups: output directory, sanity checks, save strategy, plotting, constants, "
+RULE = ("case = one value per option group (18 groups: output directory, sanity checks, save strategy, plotting, constants, "
         "point estimates, n_samples/controller, transitions, inspect callback, terminate callback, fresh stochasticity, dry run, "
-        "return_final_position, export_operator_outputs, earlier call with an output directory, resume, initial index), taken "
-        "from a greedy pairwise (thorough: 3-wise on the first 8 groups) covering array incl. invalid values, a pairwise array over "
+        "return_final_position, export_operator_outputs, earlier call with an output directory, resume, initial index, "
+        "continuation of an earlier call into the same directory), n_samples and controller also per iteration; taken "
+        "from a greedy pairwise (thorough: plus a 3-wise) covering array incl. invalid values, a pairwise array over "
         "valid values only and single-fault rows (each invalid value with everything else valid); each case is one "
         "real call of optimize_kl on a tiny two-key model; non-trivial = any non-default value; distinct by case")
 TRUSTED_BASE = [
@@ -25,9 +27,15 @@ TRUSTED_BASE = [
 ]
 ASSUMPTIONS = [
     "'runs to completion on a valid model' is established for the tiny model of the tie only; the theorems cover the option logic",
+    "effect oracles (real code only): fresh_stochasticity False <=> the iteration pushes a seed sequence in the same state "
+    "(spawn_key, n_children_spawned) as the previous one; constants: key bit-identical to the fixed initial position, the "
+    "free key moved; point_estimates: no residual in that key, residual in the other; dry_run: position untouched; n_samples "
+    "0 at the last iteration: SampleList; transitions / inspect / terminate callbacks: called exactly for the documented "
+    "iterations with the iteration index",
     "type errors / a missing sampling controller are only generated together with sanity_checks=True (without the checks "
     "such configurations are not valid, merely unchecked)",
-    "initial_index > 0 without resume, MPI communicators and n_samples varying per iteration are outside the covering array",
+    "MPI communicators are outside the covering array; initial_index > 0 is covered in its documented use (continuation of an "
+    "earlier call into the same output directory); with a directory no earlier call wrote into it raises (known finding)",
 ]
 
 GROUPS = [
@@ -37,7 +45,7 @@ GROUPS = [
     ("plots", [False, True]),
     ("constants", ["empty", "xi2", "callable"]),
     ("point_estimates", ["empty", "xi2"]),
-    ("nsamp", ["one", "zero", "two", "one_noctrl", "float"]),
+    ("nsamp", ["one", "zero", "two", "vi_then_map", "map_then_vi", "callable_const", "one_noctrl", "noctrl_at1", "noctrl_vi_at1", "float"]),
     ("transitions", ["none", "callable", "arity2"]),
     ("inspect", ["none", "one", "two", "three"]),
     ("terminate", ["none", "never", "at0", "arity0"]),
@@ -47,13 +55,18 @@ GROUPS = [
     ("export", ["empty", "sig", "pickle", "list"]),
     ("prev", [False, True]),
     ("resume", [False, True]),
-    ("initial_index", ["zero", "total", "float"]),
+    ("initial_index", ["zero", "one", "total", "float"]),
+    ("cont", [False, True]),       # initial_index = 1: an earlier call (total = 1) wrote into the SAME output directory
 ]
+NS = {"one": [1, 1], "zero": [0, 0], "two": [2, 2], "vi_then_map": [1, 0], "map_then_vi": [0, 2], "callable_const": [1, 1],
+      "one_noctrl": [1, 1], "noctrl_at1": [1, 1], "noctrl_vi_at1": [0, 1], "float": [1, 1]}
+NOCTRL = {"zero": [True, True], "vi_then_map": [False, True], "map_then_vi": [True, False], "one_noctrl": [True, True],
+          "noctrl_at1": [False, True], "noctrl_vi_at1": [True, True]}
 DEFAULT = {k: v[0] for k, v in GROUPS}
 TOTAL = 2
 
 
-def covering(rng, groups, strength=2, extra=None):
+def covering(rng, groups, strength=2, extra=None, tries=12):
     """greedy covering array: every `strength`-tuple of (group, value) occurs in some row"""
     names = [g for g, _ in groups]
     vals = dict(groups)
@@ -65,7 +78,7 @@ def covering(rng, groups, strength=2, extra=None):
     while todo:
         best, bestc = None, -1
         seed = next(iter(todo))
-        for _ in range(12):
+        for _ in range(tries):
             row = {g: rng.choice(vals[g]) for g in names}
             row.update(dict(seed))
             c = sum(1 for t in itertools.combinations(sorted(row.items(), key=lambda kv: names.index(kv[0])), strength)
@@ -84,25 +97,33 @@ def to_config(case, version):
     ns = case["nsamp"]
     return dict(
         op="accepts", version=version, total=TOTAL,
-        initialIndex={"zero": 0, "total": TOTAL, "float": 0}[case["initial_index"]],
+        initialIndex={"zero": 0, "one": 1, "total": TOTAL, "float": 0}[case["initial_index"]],
         initialIndexIsInt=case["initial_index"] != "float",
         exportIsDict=case["export"] != "list", exportHasPickle=case["export"] == "pickle",
         strategyValid=case["strategy"] != "bogus", outDir=case["outdir"] == "dir", resume=bool(case["resume"]),
         transitionsArity=2 if case["transitions"] == "arity2" else 1,
         inspectArity={"none": 1, "one": 1, "two": 2, "three": 3}[case["inspect"]],
         terminateArity=0 if case["terminate"] == "arity0" else 1, targetScalar=True, sanity=bool(case["sanity"]),
-        typesOk=ns != "float", controllerNone=ns in ("zero", "one_noctrl"),
-        nSamples={"one": 1, "zero": 0, "two": 2, "one_noctrl": 1, "float": 1}[ns],
-        fresh0=case["fresh"] != "false", dryRun=bool(case["dry_run"]),
+        typesOk=ns != "float", ctrlNoneAt=NOCTRL.get(ns, [False, False]), nSamplesAt=NS[ns],
+        freshAt={"true": [True, True], "false_at1": [True, False], "false": [False, False]}[case["fresh"]],
+        hasTransitions=case["transitions"] == "callable", hasInspect=case["inspect"] in ("one", "two"),
+        hasTerminate=case["terminate"] in ("never", "at0"), dryRun=bool(case["dry_run"]),
         **({"terminateAt": 0} if case["terminate"] == "at0" else {}),
         returnFinal=bool(case["return_final"]), prevOutDir=bool(case["prev"]))
 
 
 def admissible(case):
     """combinations the model does not describe (see ASSUMPTIONS): unchecked type errors"""
-    if case["nsamp"] in ("one_noctrl", "float") and not case["sanity"]:
+    if case["nsamp"] in ("one_noctrl", "noctrl_at1", "noctrl_vi_at1", "float") and not case["sanity"]:
         return False
+    if case["cont"] and case["resume"] and case["initial_index"] == "one" and case["outdir"] == "dir":
+        return False        # the call would load the earlier call's state from the files: resume is C25's subject
     return True
+
+
+def fresh_dir_continuation(case):
+    """initial_index > 0 with an output directory that no earlier call wrote into (known finding, not in the model)"""
+    return (case["initial_index"] == "one" and case["outdir"] == "dir" and not case["cont"] and not case["dry_run"])
 
 
 _M = {}
@@ -164,33 +185,76 @@ def _real(case, work):
         return orig(self, energy, *a, **kw)
     odir = os.path.join(work, "out") if case["outdir"] == "dir" else None
     ns = case["nsamp"]
-    n_samples = {"one": 1, "zero": 0, "two": 2, "one_noctrl": 1, "float": 1.5}[ns]
-    ic = None if ns in ("zero", "one_noctrl") else m["ic"]
+    if ns in ("vi_then_map", "map_then_vi", "callable_const", "noctrl_at1", "noctrl_vi_at1"):
+        n_samples = (lambda lst: (lambda i: lst[i]))(NS[ns])
+        ic = (lambda none: (lambda i: None if none[i] else m["ic"]))(NOCTRL.get(ns, [False, False]))
+    else:
+        n_samples = {"one": 1, "zero": 0, "two": 2, "one_noctrl": 1, "float": 1.5}[ns]
+        ic = None if ns in ("zero", "one_noctrl") else m["ic"]
+    if case["initial_index"] == "one" and case["cont"] and odir is not None:
+        # documented use of initial_index: an earlier call enumerated 0 … initial_index-1 into the same directory
+        ift.random.push_sseq_from_seed(7)
+        ift.optimize_kl(m["lh"], 1, 1, m["mini"], m["ic"], output_directory=odir, plot_energy_history=False,
+                        plot_minisanity_history=False, save_strategy=case["strategy"] if case["strategy"] != "bogus" else "latest")
+        ift.random.pop_sseq()
+    rec = dict(transitions=[], inspect=[], terminate=[], seeds=[])
+
+    def r_transitions(i):
+        rec["transitions"].append(i)
+        return None
+
+    def r_inspect1(sl):
+        rec["inspect"].append(("it", len(rec["seeds"]) - 1))
+
+    def r_inspect2(sl, i):
+        rec["inspect"].append(("arg", i))
+
+    def r_never(i):
+        rec["terminate"].append(i)
+        return False
+
+    def r_at0(i):
+        rec["terminate"].append(i)
+        return i == 0
+    # fixed initial position: makes "this key was not touched" / "the position was not touched" checkable exactly
+    dom = m["lh"].domain
+    init = ift.MultiField.from_dict({"xi": ift.makeField(dom["xi"], 0.125 * np.arange(4.0)),
+                                     "xi2": ift.makeField(dom["xi2"], np.full(4, 0.25))})
+    orig_push = okl.push_sseq
+
+    def rec_push(sseq):   # the driver's own pushes: one per iteration
+        rec["seeds"].append((tuple(sseq.spawn_key), int(sseq.n_children_spawned)))
+        return orig_push(sseq)
     kw = dict(
+        initial_position=init,
         output_directory=odir, sanity_checks=bool(case["sanity"]), save_strategy=case["strategy"],
         plot_energy_history=bool(case["plots"]), plot_minisanity_history=bool(case["plots"]),
         constants={"empty": [], "xi2": ["xi2"], "callable": (lambda i: ["xi2"] if i == 1 else [])}[case["constants"]],
         point_estimates={"empty": [], "xi2": ["xi2"]}[case["point_estimates"]],
-        transitions={"none": None, "callable": (lambda i: None), "arity2": (lambda i, j: None)}[case["transitions"]],
-        inspect_callback={"none": None, "one": (lambda sl: None), "two": (lambda sl, i: None),
+        transitions={"none": None, "callable": r_transitions, "arity2": (lambda i, j: None)}[case["transitions"]],
+        inspect_callback={"none": None, "one": r_inspect1, "two": r_inspect2,
                           "three": (lambda sl, i, j: None)}[case["inspect"]],
-        terminate_callback={"none": None, "never": (lambda i: False), "at0": (lambda i: i == 0),
+        terminate_callback={"none": None, "never": r_never, "at0": r_at0,
                             "arity0": (lambda: False)}[case["terminate"]],
         fresh_stochasticity={"true": True, "false_at1": (lambda i: i != 1), "false": False}[case["fresh"]],
         dry_run=bool(case["dry_run"]), return_final_position=bool(case["return_final"]),
         export_operator_outputs={"empty": {}, "sig": {"sig": m["sig"]}, "pickle": {"pickle": m["sig"]},
                                  "list": [m["sig"]]}[case["export"]],
         resume=bool(case["resume"]),
-        initial_index={"zero": 0, "total": TOTAL, "float": 0.0}[case["initial_index"]])
+        initial_index={"zero": 0, "one": 1, "total": TOTAL, "float": 0.0}[case["initial_index"]])
     before_prev = _tree(prev_dir)
+    marker = os.path.join(odir, "last_finished_iteration") if odir else None
+    marker_before = (os.stat(marker).st_mtime_ns, open(marker).read()) if marker and os.path.exists(marker) else None
     ift.random.push_sseq_from_seed(11)
     depth0 = len(ift.random._sseq)
     ift.NewtonCG.__call__ = counting
+    okl.push_sseq = rec_push
     try:
         try:
             r = ift.optimize_kl(m["lh"], TOTAL, n_samples, m["mini"], ic, **kw)
         finally:
             ift.NewtonCG.__call__ = orig
+            okl.push_sseq = orig_push
             delta = len(ift.random._sseq) - depth0
     except Exception as e:  # noqa: BLE001 - the kind is the observation
         import traceback
@@ -200,24 +264,54 @@ def _real(case, work):
         return dict(error=type(e).__name__, site=site, msg=str(e)[:120], stackDelta=delta, stale=stale)
     arity = 2 if isinstance(r, tuple) else 1
     sl = r[0] if isinstance(r, tuple) else r
-    wrote = bool(odir and os.path.exists(os.path.join(odir, "last_finished_iteration"))) or _tree(prev_dir) != before_prev
+    marker_after = (os.stat(marker).st_mtime_ns, open(marker).read()) if marker and os.path.exists(marker) else None
+    wrote = (marker_after is not None and marker_after != marker_before) or _tree(prev_dir) != before_prev
     mean_ok = True
     if isinstance(r, tuple):
         mean_ok = set(r[1].keys()) == {"xi", "xi2"} if n_it[0] else True
+    first = {"zero": 0, "one": 1}.get(case["initial_index"], 0)
+    seeds = rec["seeds"]
+    seeds_repeat = [seeds[k] == seeds[k - 1] for k in range(1, len(seeds))]
+    inspect_calls = [first + v if kind == "it" else v for kind, v in rec["inspect"]]
+    # effects of the options on the result (exact: fixed initial position)
+    eff = {}
+    if isinstance(r, tuple):
+        mean = r[1]
+        same = lambda a, b: bool(np.array_equal(a.val.asnumpy(), b.val.asnumpy()))
+        if case["dry_run"]:
+            eff["dry_run_position_untouched"] = all(same(mean[k], init[k]) for k in ("xi", "xi2"))
+        elif n_it[0] and case["constants"] == "xi2":
+            eff["constant_key_untouched"] = same(mean["xi2"], init["xi2"])
+            eff["free_key_moved"] = not same(mean["xi"], init["xi"])
+    if n_it[0] and case["point_estimates"] == "xi2" and hasattr(sl, "mean") and sl.n_samples > 1:
+        mm = sl.mean
+        eff["point_estimate_no_residual"] = all(
+            np.array_equal(s["xi2"].val.asnumpy(), mm["xi2"].val.asnumpy()) for s in sl.iterator())
+        eff["sampled_key_has_residual"] = any(
+            not np.array_equal(s["xi"].val.asnumpy(), mm["xi"].val.asnumpy()) for s in sl.iterator())
+    last_n = None
+    if n_it[0]:
+        last_n = NS[ns][first + n_it[0] - 1]
+        eff["map_iteration_gives_SampleList"] = (type(sl).__name__ == ("SampleList" if last_n == 0 else "ResidualSampleList"))
     return dict(iterations=n_it[0], nResult=int(sl.n_samples), arity=arity, writesFiles=wrote, stackDelta=delta,
-                mean_ok=mean_ok)
+                mean_ok=mean_ok, seedsRepeat=seeds_repeat, transitionCalls=list(rec["transitions"]),
+                inspectCalls=inspect_calls, terminateCalls=list(rec["terminate"]), effects=eff)
 
 
 def _canon_real(o):
     if "error" in o:
         return dict(error=o["error"])
-    return {k: o[k] for k in ("iterations", "nResult", "arity", "writesFiles", "stackDelta")}
+    return {k: o[k] for k in SHAPE_KEYS}
+
+
+SHAPE_KEYS = ("iterations", "nResult", "arity", "writesFiles", "stackDelta", "seedsRepeat", "transitionCalls", "inspectCalls",
+              "terminateCalls")
 
 
 def _canon_model(o):
     if "error" in o:
         return dict(error=o["error"])
-    return {k: o[k] for k in ("iterations", "nResult", "arity", "writesFiles", "stackDelta")}
+    return {k: o[k] for k in SHAPE_KEYS}
 
 
 def _judge(case, obs, model_valid):
@@ -230,10 +324,37 @@ def _judge(case, obs, model_valid):
         why = "dry_run" if case["dry_run"] else ("terminate_callback" if case["terminate"] == "at0" else "other")
         return (f"nifty.cl.random stack depth changed by {obs['stackDelta']} across optimize_kl ({why})",
                 dict(site="cl.optimize_kl", kind="rng-stack", why=why))
+    if model_valid and "error" in obs and fresh_dir_continuation(case) and obs["error"] == "FileNotFoundError" \
+            and "_pickle_load_values" in obs.get("site", ""):
+        return ("initial_index = 1 with an output directory that no earlier call wrote into: _minisanity loads "
+                "minisanity_history of iteration 0, which does not exist (FileNotFoundError)",
+                dict(site="cl.optimize_kl", kind="initial-index-fresh-directory"))
     if model_valid and "error" in obs:
         return (f"valid configuration raised {obs['error']} at {obs.get('site')}: {obs.get('msg')}",
                 dict(site="cl.optimize_kl", kind="raises", error=obs["error"], where=obs.get("site", "")))
     if "error" not in obs:
+        # every option has its documented EFFECT (stated on the real code only)
+        first = {"zero": 0, "one": 1}.get(case["initial_index"], 0)
+        fr = {"true": [True, True], "false_at1": [True, False], "false": [False, False]}[case["fresh"]]
+        want = [not fr[first + k] for k in range(1, len(obs["seedsRepeat"]) + 1)]
+        sampled = [NS[case["nsamp"]][first + k - 1] > 0 and not case["dry_run"] for k in range(1, len(obs["seedsRepeat"]) + 1)]
+        for k, (got, w, smp) in enumerate(zip(obs["seedsRepeat"], want, sampled)):
+            if got != w and (smp or w is False):
+                return (f"fresh_stochasticity: iteration {first + k + 1} {'re-uses' if got else 'does NOT re-use'} the seed "
+                        f"sequence state of iteration {first + k} although fresh_stochasticity({first + k + 1}) is {not w}",
+                        dict(site="cl.optimize_kl", kind="effect", option="fresh_stochasticity"))
+        for name, ok in obs.get("effects", {}).items():
+            if not ok:
+                return (f"option effect violated: {name}", dict(site="cl.optimize_kl", kind="effect", option=name))
+        pushed = len(obs["seedsRepeat"]) + 1
+        exp_tr = list(range(first, first + pushed)) if case["transitions"] == "callable" else []
+        exp_in = list(range(first, first + obs["iterations"])) if case["inspect"] in ("one", "two") else []
+        exp_te = list(range(first, first + obs["iterations"])) if case["terminate"] in ("never", "at0") else []
+        for nm, got, exp in (("transitions", obs["transitionCalls"], exp_tr), ("inspect_callback", obs["inspectCalls"], exp_in),
+                             ("terminate_callback", obs["terminateCalls"], exp_te)):
+            if got != exp:
+                return (f"{nm} was called for iterations {got}, documented: once per iteration {exp}",
+                        dict(site="cl.optimize_kl", kind="effect", option=nm))
         if case["outdir"] == "none" and obs["writesFiles"]:
             return ("output_directory=None but files were written (into the output directory of an earlier call)",
                     dict(site="cl.optimize_kl", kind="stale-output-directory"))
@@ -263,7 +384,7 @@ def oracle(case):
     invalid = (case["export"] in ("pickle", "list") or case["initial_index"] != "zero" or case["strategy"] == "bogus"
                or (case["outdir"] == "none" and case["resume"]) or case["transitions"] == "arity2"
                or case["inspect"] == "three" or case["terminate"] == "arity0" or case["fresh"] == "false"
-               or case["nsamp"] in ("one_noctrl", "float"))
+               or case["nsamp"] in ("one_noctrl", "noctrl_at1", "noctrl_vi_at1", "float"))
     return _judge(case, obs, not invalid)
 
 
@@ -289,12 +410,13 @@ def run(ctx):
             cases += [{**DEFAULT, **c} for c in rec.get("cases", [])]
     rows = covering(ctx.rng, GROUPS, 2)
     if not ctx.quick:
-        rows += covering(ctx.rng, GROUPS[:8], 3)
+        rows += covering(ctx.rng, GROUPS, 3, tries=4)
         rows = [{**DEFAULT, **r} for r in rows]
     # the valid core: every pair of VALID values must also occur in a row without any invalid value (else the first
     # failing check hides everything behind it)
-    valid_groups = [(g, [v for v in vs if v not in ("bogus", "one_noctrl", "float", "arity2", "three", "arity0", "false",
+    valid_groups = [(g, [v for v in vs if v not in ("bogus", "one_noctrl", "noctrl_at1", "noctrl_vi_at1", "float", "arity2", "three", "arity0", "false",
                                                     "pickle", "list", "total")]) for g, vs in GROUPS]
+    valid_groups = [(g, vs if g != "cont" else [True]) for g, vs in valid_groups]
     valid_groups = [(g, vs if g != "resume" else [False]) for g, vs in valid_groups]
     rows += covering(ctx.rng, valid_groups, 2)
     # single-fault rows: every invalid value once with everything else valid (random valid values for the other groups), so
@@ -328,6 +450,15 @@ def run(ctx):
         ctx.stat("outcome:" + (obs["error"] if "error" in obs else "completed"))
         for k in ("outdir", "dry_run", "terminate", "nsamp", "export", "prev", "sanity"):
             ctx.stat(f"{k}={case[k]}")
+        if fresh_dir_continuation(case) and "error" not in mo and obs.get("error") == "FileNotFoundError" \
+                and "_pickle_load_values" in obs.get("site", ""):
+            ctx.case(case, nontrivial)
+            ctx.stat("known:initial-index-fresh-directory")
+            ctx.counterexample({k: v for k, v in case.items() if v != DEFAULT[k]},
+                               "initial_index = 1 with an output directory that no earlier call wrote into: _minisanity loads "
+                               "minisanity_history of iteration 0, which does not exist (FileNotFoundError)",
+                               dict(site="cl.optimize_kl", kind="initial-index-fresh-directory"))
+            continue
         ok = ctx.compare(case, _canon_real(obs), _canon_model(mo),
                          note="outcome of the real call vs model of the repaired driver"
                               + (" — the real outcome equals the model of the driver AS FOUND"
